@@ -365,6 +365,8 @@ bool AutomationMgr::handleMidi(int channel, int type, int val)
         if(bound_nrpn)
             return 1;
         }
+        else
+            return 0; //incomplete (N)RPN sequence: nothing to drive or learn yet
         
     }
     else {
